@@ -263,7 +263,10 @@ def tv_report(c, tv, prop):
     for kind, tag, ln, d in tv:
         fam = d.get("fam", "")
         cls = d.get("cls", "")
-        if tag == "accept-mismatch":
+        if tag == "honest-not-delivered":
+            owner = "C01"
+            key = "trace:undeliverable:%s" % cls
+        elif tag == "accept-mismatch":
             honest = fam in ("honest", "honest-rev")
             owner = "C01" if honest else "C13"
             key = "trace:undeliverable:%s" % cls if honest else "trace:accept-mismatch:%s/%s" % (fam, cls)
@@ -276,3 +279,37 @@ def tv_report(c, tv, prop):
         elif kind == "I" and (prop == "C13" or tag in ("topology-invalid", "segment-not-a-beaconed-walk")):
             c.drift("trace event %d: %s %s" % (ln, tag, json.dumps(d)[:300]))
     return n
+
+
+def binding_selftest(c, binp, insts, events_path):
+    """S6: the binding is demonstrated, not assumed.
+    (ii) a corrupted recorded field and (iii) a dropped event must be noticed by Trace_ScionNet;
+    (iv) a deliberately wrong harness adapter (link state never applied) must be reported by the P-monitors.
+    Failures of the machinery itself are tool errors; if the code under test left no usable event the step is skipped."""
+    evs = vcommon.read_ndjson(events_path)
+    idx = next((i for i, e in enumerate(evs) if e.get("ev") == "step" and e.get("k") == "fwd"), None)
+    if idx is None:
+        c.drift("binding self-test skipped: the recorded execution contains no forwarded step")
+    else:
+        def tv_count(rows, name):
+            pth = os.path.join(c.work, name + ".ndjson")
+            write_ndjson(pth, rows)
+            r = c.tlc(SD, "Trace_ScionNet", mode="trace", env={"TRACE": pth}, timeout=3000, keep_printed=False)
+            return sum(1 for l in open(r.out_path, errors="replace") if l.startswith('<<"TV", "I"'))
+        base = tv_count(evs, "selftest_base")
+        bad = [dict(e) for e in evs]
+        bad[idx]["nas"] = bad[idx]["nas"] + 1
+        if tv_count(bad, "selftest_corrupt") <= base:
+            c.fail_tool("binding self-test: a corrupted step event (next AS changed) was not noticed by Trace_ScionNet")
+        if tv_count(evs[:idx] + evs[idx + 1:], "selftest_drop") <= base:
+            c.fail_tool("binding self-test: a dropped step event was not noticed by Trace_ScionNet")
+    sub = [i for i in insts if any(a["fam"] == "linkdown" for a in i["attacks"])][:3]
+    if sub:
+        inp = os.path.join(c.work, "selftest_mutant_in.ndjson")
+        outp = os.path.join(c.work, "selftest_mutant_out.ndjson")
+        write_ndjson(inp, sub)
+        rc, so = c.sh([binp, "replay", inp, outp], env={"SN_PARTS": "c13", "SN_MUTANT": "nolinkstate"}, timeout=3000)
+        keys = {p["key"] for r in vcommon.read_ndjson(outp) for p in r.get("pv", [])} if rc == 0 else set()
+        if not any(k.startswith("forward-down-link:linkdown") for k in keys):
+            c.fail_tool("binding self-test: the mutant adapter (link state never applied) was not reported by the P-monitors")
+    c.cov["binding_selftest"] = "corrupt+drop+mutant-adapter ok"
